@@ -190,6 +190,7 @@ func concRun(c *driver.Ctx, d *doc, pair [2]string, gs []op, name string, viaNew
 		}
 		// every sequential order on the model
 		fileOK := false
+		var mOK *model
 		var why []string
 		clauses := map[string]bool{}
 		getAllowed := make([][]outcome, len(gs))
@@ -209,6 +210,9 @@ func concRun(c *driver.Ctx, d *doc, pair [2]string, gs []op, name string, viaNew
 			}
 			if mm := matchFile(m, path, nil); mm == nil {
 				fileOK = true
+				if mOK == nil {
+					mOK = m
+				}
 			} else {
 				why = append(why, fmt.Sprintf("order %v: %s: %s", perm, mm.clause, mm.detail))
 				clauses[mm.clause] = true
@@ -231,6 +235,12 @@ func concRun(c *driver.Ctx, d *doc, pair [2]string, gs []op, name string, viaNew
 			if gs[gi].kind == "get" && !inAllowed(getAllowed[gi], r.c, r.err) {
 				return &driver.Fail{Sig: "concurrent: Get answer that no sequential order allows", Detail: detail + "\nallowed for g" + fmt.Sprint(gi) + ": " + allowedStr(getAllowed[gi])}
 			}
+		}
+		// afterwards, with nothing else running: the store that executed the calls reads back what the file holds
+		if f := reopenCheck(path, mOK, []string{pair[0], pair[1]}, st); f != nil {
+			f.Sig = "concurrent, afterwards: " + f.Sig
+			f.Detail = detail + "\n" + f.Detail
+			return f
 		}
 		hasPut := false
 		for _, o := range gs {
